@@ -23,7 +23,7 @@ UNSUPPORTED_LEAVES = {"pattern", "sertype"}
 
 def bounds(tier):
     return dict(tier=tier, schemas=len(_schemas(tier)), dialects=["DRAFT_2020_12", "OPEN_API_3_1"], all_refs=[False, True],
-                targets=["bare", "dataclass field", "aliased dataclass"], max_depth=1 if tier == "quick" else 2,
+                targets=["bare", "dataclass field", "aliased dataclass (metadata / Config.aliases / both / Annotated Alias)", "init=False field", "fixed unpacked tuples"], max_depth=1 if tier == "quick" else 2,
                 wrapped_values="spread of 10 (aliased: 4) in quick, full product in thorough",
                 quick_combinations="bare class-free schemas: 1 (definitions cannot occur); wrapped: DRAFT/inline + OPENAPI/all_refs; aliased: OPENAPI/all_refs")
 
@@ -44,9 +44,9 @@ def units(tier):
         out.append((d, "bare"))
         out.append((d, "wrapped"))
         if space.depth(d) <= 1 and (tier == "thorough" or d[0] == "leaf" or sum(map(ord, space.show(d))) % 4 == 0):
-            for a in ("alias_meta", "alias_config"):
+            for a in ("alias_meta", "alias_config", "alias_both", "alias_annotated"):
                 out.append((d, a))
-    out += [(None, "generic_specialisations"), (None, "same_name_classes")]
+    out += [(None, "generic_specialisations"), (None, "same_name_classes"), (None, "init_false_field"), (None, "fixed_unpacked_tuple")]
     return out
 
 
@@ -118,7 +118,7 @@ def run_unit(unit, only=None):
         o = ref.opts(by_alias=by_alias)
         combos = [(DRAFT_2020_12, "DRAFT_2020_12", False), (DRAFT_2020_12, "DRAFT_2020_12", True),
                   (OPEN_API_3_1, "OPEN_API_3_1", False), (OPEN_API_3_1, "OPEN_API_3_1", True)]
-        if target == "bare" and not space.has_kind(d, {"dc", "dcgen", "dcgeninh", "dcinh", "dcself", "dcfwd"}):
+        if target == "bare" and not space.has_kind(d, {"dc", "dcgen", "dcgeninh", "dcinh", "dcself", "dcselft", "dcfwd"}):
             combos = combos[:1]      # no dataclass => no definitions: dialect and all_refs cannot change the schema
         elif QUICK[0] and target != "bare":
             combos = [combos[0], combos[3]] if target == "wrapped" else [combos[3]]    # quick tier (stated in bounds)
@@ -133,11 +133,13 @@ def run_unit(unit, only=None):
                     continue
                 except RecursionError:
                     res.cases += 1
-                    V("schema-build-raised", "RecursionError", key, -1, "RecursionError", facts=dict(self_reference="dcself" in set(space.kinds_of(d))))
+                    V("schema-build-raised", "RecursionError", key, -1, "RecursionError", facts=dict(self_reference=bool({"dcself", "dcselft"} & set(space.kinds_of(d)))))
                     continue
                 except Exception as e:   # noqa: BLE001
                     res.cases += 1
-                    V("schema-build-raised", type(e).__name__, key, -1, repr(e)[:200])
+                    kinds = set(space.kinds_of(d))
+                    V("schema-build-raised", type(e).__name__, key, -1, repr(e)[:200],
+                      facts=dict(self_reference=bool({"dcself", "dcselft"} & kinds), typing_self="dcselft" in kinds))
                     continue
                 doc = doc_for(sch, dname)
                 if (dialect, all_refs) == (combos[0][0], combos[0][2]):
@@ -246,8 +248,60 @@ def _flag_combo(d, v, ctx):
     return found
 
 
+def run_shape_special(unit, res):
+    """Schemas outside the descriptor grammar: a field with init=False (still serialized) and tuples with a fixed unpacked part."""
+    import dataclasses
+    from typing import List, Tuple
+    from jsonschema import Draft202012Validator
+    from mashumaro.codecs.basic import BasicEncoder
+    from mashumaro.jsonschema import DRAFT_2020_12, OPEN_API_3_1, build_json_schema
+    from typing_extensions import Unpack
+    _, kind = unit
+
+    def V(clause, oc, key, detail):
+        res.violation(f"{clause}|{kind}|{key}|{oc}", clause, oc, dict(desc=None, target=kind, key=key, value_index=-1,
+                                                                     facts=dict(scenario=kind)), detail)
+    with space.Ctx() as ctx:
+        cases = []
+        if kind == "init_false_field":
+            ctx.run("@dataclass\nclass IF:\n    a: int\n    b: int = field(default=5, init=False)\n    c: List[int] = field(default_factory=list, init=False)\n")
+            IF = ctx.ns["IF"]
+            cases = [(IF, IF(1)), (List[IF], [IF(2)])]
+        else:
+            for T, v in ((Tuple[int, Unpack[Tuple[str, str]]], (1, "a", "b")), (Tuple[Unpack[Tuple[str, str]], int], ("a", "b", 1)),
+                         (Tuple[int, Unpack[Tuple[str, str]], float], (1, "a", "b", 2.5)), (Tuple[Unpack[Tuple[int, str]]], (1, "a")),
+                         (Tuple[int, Unpack[Tuple[()]], str], (1, "s"))):
+                cases.append((T, v))
+        for ci, (T, v) in enumerate(cases):
+            for dialect, dname in ((DRAFT_2020_12, "DRAFT_2020_12"), (OPEN_API_3_1, "OPEN_API_3_1")):
+                for all_refs in (False, True):
+                    key = f"{ci}/{dname}/{all_refs}"
+                    res.cases += 1
+                    res.transitions += 1
+                    try:
+                        sch = build_json_schema(T, dialect=dialect, all_refs=all_refs).to_dict()
+                        val = Draft202012Validator(doc_for(sch, dname))
+                        inst = json.loads(json.dumps(BasicEncoder(T).encode(v)))
+                        errs = list(val.iter_errors(inst))
+                    except Exception as e:   # noqa: BLE001
+                        V("schema-build-raised", type(e).__name__, key, f"type={T} {e!r:.200}")
+                        continue
+                    if errs:
+                        e0 = _deepest(errs[0])
+                        V("schema-rejects-serializer-output", str(e0.validator), key,
+                          f"type={T} instance={inst!r} error={e0.message[:150]} schema={json.dumps(sch)[:300]}")
+                    else:
+                        res.outcomes["valid"] += 1
+                        res.nontrivial += 1
+    res.sample(dict(scenario=kind))
+    res.states += 1
+    return res
+
+
 def run_special(unit, res):
     """Distinct classes / generic specialisations must not share one definition."""
+    if unit[1] in ("init_false_field", "fixed_unpacked_tuple"):
+        return run_shape_special(unit, res)
     import dataclasses
     from typing import Generic, List, TypeVar
     from jsonschema import Draft202012Validator
